@@ -4,6 +4,7 @@
 From Coq Require Import String List Bool.
 From CF Require Import Model.Tables Model.TableSem Proofs.TableProofs Proofs.FactsDispatch Proofs.FactsSafeSlots.
 From CF Require Import Gen.GenExports Gen.GenSafe Gen.GenMacros Gen.GenDispatch.
+From CF Require Import Model.Features Model.DispatchSpec Proofs.FeatureLemmas Proofs.DispatchPreds.
 From CF Require Import Base.Mem Model.Prim Model.SimdApi Model.Kernels Model.Regs Model.Exports Model.Safe Proofs.SafeSem.
 Import ListNotations.
 
@@ -105,6 +106,56 @@ Theorem C09_safe_is_kernel_run_f64 :
         run_safe dispatch_chain run_export_f64 exports safe_macros s f bc p debug DIMS v a b res
         = xo (run_kernel R float_math k (List.length a) v (init_mem a b res)).
 Proof. exact safe_f64_is_kernel_run. Qed.
+
+(** ** Availability: what the predicates of the chain really test (bodies regenerated from dispatch.rs)
+
+   A machine is a feature oracle [avail] closed under the feature implications that contains the target's
+   baseline and every compile-time target feature of the build ([machine_ok]).  [pred_features] /
+   [slot_features] (Model/DispatchSpec.v) are the specification: the CPU features an is_*_available predicate
+   stands for, the features the back end behind a slot requires. *)
+
+(* A predicate answers true ONLY IF everything it stands for is available: in every build configuration
+   (architecture, nightly, std, any compile-time target features), on every machine. *)
+Theorem C09_predicates_sound :
+  forall bc avail, machine_ok bc avail ->
+  forall x, eval_pred pred_defs bc avail x = true -> pred_holds avail x = true.
+Proof. exact predicates_sound. Qed.
+
+(* ... and, in a std build (run-time detection), WHENEVER it is. *)
+Theorem C09_predicates_complete :
+  forall bc avail, machine_ok bc avail -> bc_std bc = true ->
+  forall x, pred_compiled bc x = true -> pred_holds avail x = true -> eval_pred pred_defs bc avail x = true.
+Proof. exact predicates_complete. Qed.
+
+(* Never an unavailable back end: whatever the macro's chain selects has all its required features. *)
+Theorem C09_never_unavailable :
+  forall bc avail sup x, machine_ok bc avail ->
+    select_chain dispatch_chain bc (eval_pouts pred_defs bc avail) sup = Some x ->
+    slot_available avail x = true.
+Proof. exact never_unavailable. Qed.
+
+(* The best available one (std builds): every slot of higher documented priority that the call site supplied
+   and the build compiled in lacks a required feature on this machine. *)
+Theorem C09_best_available :
+  forall bc avail sup x, machine_ok bc avail -> bc_std bc = true ->
+    select_chain dispatch_chain bc (eval_pouts pred_defs bc avail) sup = Some x ->
+    forall y, slot_rank y < slot_rank x -> is_supplied sup y = true -> compiled bc y = true ->
+      slot_available avail y = false.
+Proof. exact best_available. Qed.
+
+(* Non-vacuity: a std build on the closed machine generated by AVX2 alone (no FMA) satisfies the hypotheses;
+   the chain selects AVX2, AVX2+FMA being unavailable; a no-std build declaring only +avx2 likewise. *)
+Example C09_availability_nonvacuous :
+  let av := closure ["avx2"%string; "sse"%string; "sse2"%string] in
+  let bc := {| bc_arch := X86_64; bc_nightly := true; bc_std := true; bc_tf := [] |} in
+  let bc0 := {| bc_arch := X86_64; bc_nightly := false; bc_std := false; bc_tf := av |} in
+  let sup := {| s_avx512 := true; s_avx2fma := true; s_avx2 := true; s_neon := true |} in
+  closedb av = true /\ fsubset (baseline_of X86_64) av = true
+  /\ select_chain dispatch_chain bc (eval_pouts pred_defs bc (fun f => mem_string f av)) sup = Some SAvx2
+  /\ slot_available (fun f => mem_string f av) SAvx2Fma = false
+  /\ select_chain dispatch_chain bc0 (eval_pouts pred_defs bc0 (fun f => mem_string f av)) sup = Some SAvx2
+  /\ eval_pouts pred_defs bc0 (fun _ => false) = spec_pouts_nostd bc0.
+Proof. vm_compute. repeat split; reflexivity. Qed.
 
 Example C09_nonvacuous :
   length safe_entries = 190 /\ length dispatch_chain = 5 /\
